@@ -394,7 +394,8 @@ sweep_case(size_t len, unsigned flags, int variants)
 	raw = malloc(lq + 1 + 2 * G);
 	memset(raw, 0xA5, lq + 1 + 2 * G);
 	dest = raw + G;
-	src = vf_dup(pl, len);
+	/* "data may be NULL only if len is zero": use that for half of the empty payloads */
+	src = (len == 0 && (flags & 1)) ? NULL : vf_dup(pl, len);
 	lw = br_pem_encode(dest, src, len, name, flags);
 	free(src);
 	vf_stat("cmp_pem_enc", 1);
